@@ -37,7 +37,10 @@ HARNESSES = {
     "h_lib": (["h_lib.c"], [], False),
     "h_strm": (["h_strm.c"], [], False),
     "h_echsd": (["h_echsd.c", "h_echsd_shim.c"], [], True),
+    "h_echsx": (["h_echsx_shim.c"], [], True),
 }
+# stand-alone helpers without sanitizers (they are not under test)
+HELPERS = ["h_sendmail", "h_job"]
 # real binaries: name -> (repo sources, extra cppflags, needs libev, shim sources)
 BINARIES = {
     "echse": (["echse.c", "version.c"], ["-DSTANDALONE", "-DHAVE_VERSION_H"], False),
@@ -172,8 +175,14 @@ def _compile_flavour(root, flav):
             continue
         if name == "h_echsd":
             objs.append(os.path.join(obj, "bin_echsd_logger.o"))
+        if name == "h_echsx":
+            objs += [os.path.join(obj, "bin_echsx_%s.o" % s[:-2]) for s in BINARIES["echsx"][0]]
         links.append(["gcc"] + san + ["-rdynamic", "-o", os.path.join(obj, name)] + objs + [lib]
                      + ([LIBEV] if ev else []) + LDLIBS)
+    for h in HELPERS:
+        p = os.path.join(HARNESS, h + ".c")
+        if os.path.exists(p):
+            links.append(["gcc", "-O1", "-g", "-w", "-o", os.path.join(obj, h), p])
     with ThreadPoolExecutor(16) as ex:
         list(ex.map(lambda c: _run(c, what="link"), links))
 
